@@ -350,3 +350,26 @@ func sample(sub string, v any) {
 		rec.Sample(v)
 	}
 }
+
+// compilePanic is the error safeCompile returns when gojq.Compile panicked.
+type compilePanic struct{ what string }
+
+func (e *compilePanic) Error() string { return "gojq.Compile panicked: " + e.what }
+
+func safeCompile(q *gojq.Query, opts ...gojq.CompilerOption) (code *gojq.Code, err error) {
+	defer func() {
+		if r := recover(); r != nil {
+			code, err = nil, &compilePanic{fmt.Sprint(r)}
+		}
+	}()
+	return gojq.Compile(q, opts...)
+}
+
+func isCompilePanic(errs ...error) string {
+	for _, e := range errs {
+		if p, ok := e.(*compilePanic); ok {
+			return p.Error()
+		}
+	}
+	return ""
+}
